@@ -127,7 +127,8 @@ Qed.
 Lemma on_retract_response_same s w ids s' : on_retract_response s w ids = Ok s' -> hq_same s s'.
 Proof.
   unfold on_retract_response. destruct (retract_response_states _ w ids []) as [c' groups].
-  intros H. apply send_redirected_same in H. exact H.
+  intros H. apply bind_ok in H. destruct H as (s2 & H & H2).
+  destruct (retract_wakes _ _ _ _); inversion H2; subst s'; clear H2; apply send_redirected_same in H; exact H.
 Qed.
 
 (** * Server *)
